@@ -526,7 +526,7 @@ def bounds(tier, variant):
             if tier == "thorough" else None}
 
 
-PACK = {"quick": 5000, "thorough": 16000}
+PACK = {"quick": 5000, "thorough": 20000}
 
 
 def _plan_variant(tier, variant):
@@ -540,7 +540,7 @@ def _plan_variant(tier, variant):
         n = nominal_window(spec)
         for L in lengths:
             nsig = (L + 4) * 2 * L if tier == "thorough" else L * L + 8 * L
-            units.append(({"part": "family", "kernel": spec, "boundary": b, "L": L, "tier": tier}, int(nsig * max(1.0, n * L / 100.0))))
+            units.append(({"part": "family", "kernel": spec, "boundary": b, "L": L, "tier": tier}, int(nsig * max(1.0, n * L / 30.0) * (1.5 if spec["type"] == "GaussianKernel" and not b else 1.0))))
     shards = [{"variant": variant, "units": [{"part": "windows"}]}]
     cur, wsum = [], 0
     for u, wgt in units:
